@@ -219,7 +219,9 @@ def traversal_idiom(index, ctx):
     ctx.analysed(F.qualname)
     from ..normalize import inline_local_closures
 
-    fn = inline_local_closures(F.node)  # a local `_discover(node)` called as a statement is read in place
+    from ..normalize import unflag_dict
+
+    fn = unflag_dict(inline_local_closures(F.node))  # a local `_discover(node)` called as a statement is read in place; a dict used as "visited + flag" is read as a visited set and a result set
     cfg = cfg_of(fn)
     # ---- successor element variables and successor collections, with the conditions known to hold for their elements
     def is_nf(e):
@@ -457,7 +459,10 @@ def traversal_idiom(index, ctx):
                     return True
                 return _kind_test(index, F, c, what)
 
-            extra = [(c, tr) for c, tr in guards if what in names_read(c) and not recognised(c)]
+            # (names bound by the same loop target — `for child, output_nr in node.next_functions` — describe the same edge)
+            sibs = {what} | {x.id for l_ in ast.walk(fn) if isinstance(l_, ast.For) and any(isinstance(x, ast.Name) and x.id == what for x in ast.walk(l_.target))
+                             for x in ast.walk(l_.target) if isinstance(x, ast.Name)}
+            extra = [(c, tr) for c, tr in guards if (sibs & names_read(c)) and not recognised(c)]
             if extra:
                 c0, tr0 = extra[0]
                 ctx.violated("R4", f"{F.short}: successor `{what}` is followed only if `{norm_text(c0)[:60]}` is {tr0}",
